@@ -304,7 +304,7 @@ def evaluate(u, slices=8):
             raise V.ToolError("Eval_Indexer failed on %s" % f)
         out = {}
         for j in V.tlc_json_lines(res["out"], "EXPECT"):
-            out[idxs[j["k"] - 1]] = {"cells": j["cells"], "txs": j["txs"]}
+            out[idxs[j["k"] - 1]] = {"cells": j["cells"], "txs": j["txs"], "gtxs": j["gtxs"]}
         if len(out) != len(idxs):
             raise V.ToolError("Eval_Indexer printed %d of %d chains" % (len(out), len(idxs)))
         return out, res
@@ -534,7 +534,7 @@ def _run(c, tier):
     # ---- 5. vacuity guards ------------------------------------------------------------------------------------
     need = {"direct.rollbacks_deeper_than_1": 1, "direct2.rollbacks_deeper_than_1": 1, "service.reorgs": 1,
             "service.rollbacks_deeper_than_1": 1, "direct.prefix_hits": 1, "service.prefix_hits": 1, "direct.multi_page": 1,
-            "service.multi_page": 1}
+            "service.multi_page": 1, "direct.grouped_multi": 1, "service.grouped_multi": 1}
     miss = [k for k, v in need.items() if tot.get(k, 0) < v]
     if miss:
         raise V.ToolError("vacuous replay: %s (%s)" % (miss, tot))
